@@ -14,6 +14,7 @@ VALS = {"text": ["alpha", "beta"], "ints": [1, 2], "empty": [], "one": ["alpha"]
 VDTYPE = {"bools": "boolean", "dates": "date", "tup2": "2-tuple", "tup12": "12-tuple", "tup2bad": "2-tuple", "tup12bad": "12-tuple"}
 TREE = {"s1": "d1", "s2": "d1", "s3": "s1", "s4": "d1", "p1": "s1", "p2": "s1", "p3": "s2", "p4": "s3"}
 ORDER = ["s1", "s2", "s3", "s4", "p1", "p2", "p3", "p4"]
+BASE_NAMES = {"s1": "a", "s2": "b", "s3": "a", "s4": "a", "p1": "a", "p2": "b", "p3": "a", "p4": "a"}     # OdmlValidationGen!Base
 
 
 def build(g):
@@ -31,12 +32,36 @@ def build(g):
                 o._values = [["1"], [str(i) for i in range(12)]]
         objs[h] = o
         objs[TREE[h]].append(o)
+    # the document first carries the names of the valid base document and is looked at once (a validation, look-ups by
+    # name, membership tests): the document validated below is the result of an editing history, not a fresh object graph
+    def rename(o, n):
+        try:
+            o.name = n                         # the public setter where it accepts the name
+            if o.name != n:
+                o._name = n
+        except KeyError:
+            o._name = n                        # duplicates among siblings: a document made invalid on purpose
+    for h in ORDER:
+        rename(objs[h], BASE_NAMES[h])
+    with C.quiet():
+        Validation(objs["d1"])
+    for h in ORDER:
+        par = objs[TREE[h]]
+        lst = par.sections if h.startswith("s") else par.properties
+        for n in ("a", "b", "zz"):
+            try:
+                lst[n]
+            except (KeyError, IndexError):
+                pass
+            n in lst
+        if h.startswith("p"):
+            par.contains(objs[h])
     for h in ORDER:
         spec, o = g[h], objs[h]
         if spec["name"] == "#id":
             o.name = None
-        else:
-            o._name = spec["name"]             # duplicates among siblings: a document made invalid on purpose
+        elif o.name != spec["name"]:
+            rename(o, spec["name"])
         if h.startswith("s"):
             o.type = None if spec["type"] == "none" else spec["type"]
             o.sec_cardinality = CARDS[spec["scard"]]
